@@ -185,3 +185,35 @@ def run(ctx):
         if a_ != b_:
             ctx.fail('MeasureLayer.forward', 'measuring Z on qubits %s through a measurement layer differs from measuring the same list directly (same coins): %s vs %s' % (qs, str(b_)[:200], str(a_)[:200]),
                      dict(rows=rows, r=r, qubits=qs, seed=sd))
+    # the projection postulate for the operator the state denotes, through the library's own polynomial algebra:
+    # P rho P = p rho' with P = (1 +- O)/2, p = 1/2 for a random outcome and 1 for a determined one (theorem C06_measure_is_projection
+    # is about the model's densityPoly / polyMatmul: both are in the correspondence here)
+    import enc as E
+    pc = impl.pc
+    for _ in range(ctx.budget(40, 400)):
+        n = rng.choice([1, 2, 2, 3, 3, 4])
+        rows, r = G.rand_tableau(rng, n)
+        Oop = G.rand_observable(rng, rows, n, r)[0]
+        st = impl.state(rows, r)
+        try:
+            rho = st.density_matrix
+            R.seed_numba(rng.randrange(1 << 30))
+            out, logp = st.measure(impl.plist([Oop], n))
+            out = int(out[0]); rnd = (float(logp) != 0.0)
+            rho2 = st.density_matrix
+            sgn = 1.0 if out == 0 else -1.0
+            Pp = 0.5 * pc.pauli_identity(n) + (0.5 * sgn) * impl.pauli(Oop).as_polynomial() if hasattr(pc, 'pauli_identity') else None
+            lhs = (Pp @ rho @ Pp).reduce()
+        except Exception as e:
+            ctx.fail('StabilizerState.measure', 'implementation raised %r while forming P rho P' % e, dict(rows=rows, r=r, O=Oop)); continue
+        val = lambda poly: {O.from_gp(g, 0)[0]: complex(c) * 1j ** int(p) for g, p, c in zip(np.asarray(poly.gs), np.asarray(poly.ps), np.asarray(poly.cs)) if abs(c) > 1e-12}
+        a_, b_ = val(lhs), {k: v * (0.5 if rnd else 1.0) for k, v in val(rho2).items()}
+        ctx.case(('projection-postulate', tuple(rows), r, Oop), rnd, sample=dict(op='P rho P = p rho_after', N=n, r=r, O=Oop, random=rnd))
+        ctx.count('postulate:' + ('random' if rnd else 'determined'))
+        if set(a_) != set(b_) or any(abs(a_[k] - b_[k]) > 1e-12 for k in a_):
+            ctx.fail('StabilizerState.measure', 'P rho P is not p times the density matrix of the state after the measurement (outcome %d, %s)' % (out, 'random' if rnd else 'determined'),
+                     dict(rows=rows, r=r, O=Oop, outcome=out))
+        for rws, rr, tag in ((rows, r, 'before'), (impl.ops_of(st), int(st.r), 'after')):
+            dm = rho if tag == 'before' else rho2
+            ctx.q('density_matrix', 'densitypoly %d %s' % (rr, H.erows_ops(rws)), [(O.from_gp(g, p), complex(c)) for g, p, c in zip(dm.gs, dm.ps, dm.cs)],
+                  lambda s_: [(O.from_gp(g, p), complex(float(c[0]), float(c[1]))) for g, p, c in E.dpoly(s_)])
